@@ -18,6 +18,15 @@ THEOREMS = {
         "modules": ["Abnf.Theorems.C07"],
         "theorems": ["Abnf.C07.parse_order_independent", "Abnf.C07.parse_all_order_independent", "Abnf.C07.listed_ends_distinct"],
     },
+    "C04": {
+        "modules": ["Abnf.Theorems.C04"],
+        "theorems": ["Abnf.C04.decodeNum_spec", "Abnf.C04.decodeRepeat_spec", "Abnf.C04.decodeNumVal_spec", "Abnf.C04.charVal_flag_spec",
+                     "Abnf.C04.definedAs_layout_independent", "Abnf.C04.lf_vs_crlf"],
+    },
+    "C06": {
+        "modules": ["Abnf.Theorems.C06"],
+        "theorems": ["Abnf.C06.core_exact", "Abnf.C06.charClass_is_exact", "Abnf.Obl.C06.core_ok", "Abnf.charClass_sound", "Abnf.ivs_ext"],
+    },
     "C08": {
         "modules": ["Abnf.Theorems.C08"],
         "theorems": ["Abnf.C08.request_transparent", "Abnf.C08.cache_transparent", "Abnf.C08.fresh_caches_sound",
